@@ -55,6 +55,21 @@ def group_reduce(keys, valid, order, aggs):
                 s = Sum([If(And(ms[j], Not(cells[j].null)), cells[j].num(), z3.IntVal(0)) for j in range(n)])
                 c = Sum([If(And(ms[j], Not(cells[j].null)), z3.IntVal(1), z3.IntVal(0)) for j in range(n)])
                 res.append(cell_binop("truediv", Cell(s, F, "f"), Cell(c, F, "i")))
+            elif name == "median":
+                # order statistics inside the group: rank by (value, slot); the mean of the two middle members
+                pres = [And(ms[j], Not(cells[j].null)) for j in range(n)]
+                k = Sum([If(p, z3.IntVal(1), z3.IntVal(0)) for p in pres])
+                lo_r, hi_r = (k - 1) / 2, k / 2
+                lo = hi = z3.IntVal(0)
+                for j in range(n):
+                    if is_f(pres[j]):
+                        continue
+                    xj = cells[j].num()
+                    rj = Sum([If(And(pres[m], Or(cells[m].num() < xj, And(cells[m].num() == xj, T if m < j else F))), z3.IntVal(1), z3.IntVal(0)) for m in range(n) if m != j])
+                    lo = If(And(pres[j], rj == lo_r), xj, lo)
+                    hi = If(And(pres[j], rj == hi_r), xj, hi)
+                c = cell_binop("truediv", Cell(lo + hi, F, "f"), Cell(z3.IntVal(2), F, "i"))
+                res.append(Cell(c.val, Or(c.null, k == 0), "f"))
             else:
                 raise Unsupported(f"groupby aggregation {name}")
         out.append(res)
@@ -194,6 +209,9 @@ class SymGroupBy:
 
     def size(self, **kw):
         return self._agg("size")
+
+    def median(self, numeric_only=False, **kw):
+        return self._agg("median")
 
     def first(self, **kw):
         raise Unsupported("groupby first")
